@@ -12,7 +12,7 @@ import sys
 from hypothesis import strategies as st
 
 from vf import lab, values, oracle
-from vf.core import Prop, Outcome
+from vf.core import Prop, Outcome, fd
 
 from deep.api.tracepoint.trigger import Trigger, LineLocation, LocationAction, Location
 from deep.push import convert_snapshot
@@ -147,7 +147,7 @@ class C07(Prop):
 
     def strategy(self, tier):
         big = tier == 'thorough'
-        return st.fixed_dictionaries({
+        return fd({
             'values': values.value_recipes(values.FRIENDLY, min_nodes=3, max_nodes=14 if big else 9, max_items=5,
                                            str_keys_only=True),
             'idx': st.lists(st.integers(0, 13), min_size=3, max_size=3),
